@@ -168,6 +168,11 @@ def canon_cell(x):
     return ["o", repr(x)]
 
 
+def dtype_name(dt):
+    """string columns are `str` in pandas 3 and come back as `object` when the table read has no rows: one name"""
+    return "str" if str(dt) in ("object", "str", "string") else str(dt)
+
+
 def canon(v):
     """canonical text of a value as far as `equal data` goes"""
     import pandas as pd
@@ -176,12 +181,12 @@ def canon(v):
         cols = [str(c) for c in v.columns]
         body = {c: [canon_cell(x) for x in v[c].tolist()] for c in v.columns}
         return "F:" + json.dumps({"k": "frame", "names": [str(n) for n in v.index.names], "index": idx, "columns": cols,
-                                  "dtypes": [str(v[c].dtype) for c in v.columns], "cells": {str(c): body[c] for c in v.columns}},
+                                  "dtypes": [dtype_name(v[c].dtype) for c in v.columns], "cells": {str(c): body[c] for c in v.columns}},
                                  sort_keys=True)
     if isinstance(v, pd.Series):
         idx = [[canon_cell(c) for c in (t if isinstance(t, tuple) else (t,))] for t in v.index.tolist()]
         return "F:" + json.dumps({"k": "series", "names": [str(n) for n in v.index.names], "index": idx, "name": v.name,
-                                  "dtype": str(v.dtype), "cells": [canon_cell(x) for x in v.tolist()]}, sort_keys=True)
+                                  "dtype": dtype_name(v.dtype), "cells": [canon_cell(x) for x in v.tolist()]}, sort_keys=True)
     return "J:" + json.dumps(v, sort_keys=True)
 
 
@@ -204,7 +209,7 @@ def gen_json(rng, depth=0):
     return {rng.choice(["a", "b", "restrictions", "1", ""]): gen_json(rng, depth + 1) for _ in range(rng.randint(0, 3))}
 
 
-def gen_index(rng, nmax=5):
+def gen_index(rng, nmax=6):
     nlev = rng.choice([1, 1, 2, 2, 3])
     names = rng.sample(["age", "year", "sex", "draw_id", "location"], nlev)
     n = rng.randint(1, nmax)
@@ -294,7 +299,175 @@ def gen_group_keys(rng):
     return [f"metadata.{m}" for m in rng.sample(["versions", "locations", "notes", "source"], rng.randint(2, 3))]
 
 
+HANDLE_LEVELS = {"age": [0, 1, 5, 10, 95], "year": [1990, 2000, 2019, 2020], "draw_id": [0, 1, 2, 999]}
+
+
+def gen_hterm(rng, depth=0):
+    if depth < 1 and rng.random() < 0.2:
+        return ["and" if rng.random() < 0.5 else "or", gen_hterm(rng, 1), gen_hterm(rng, 1)]
+    r = rng.random()
+    if r < 0.55:
+        col = rng.choice(list(HANDLE_LEVELS))
+        return ["atom", col, rng.choice(["<", "<=", "==", ">=", ">", "!="]), rng.choice(HANDLE_LEVELS[col])]
+    if r < 0.75:
+        return ["atom", rng.choice(["sex", "location"]), rng.choice(["==", "!="]), rng.choice(["Female", "Male", "Kenya", "x y"])]
+    if r < 0.88:
+        return ["atom", rng.choice(["value", "count", "draw_0"]), ">", 0]          # value columns: not queryable
+    return ["atom", rng.choice(["parameter", "absent_col"]), "==", 1]               # absent
+
+
+def gen_filterable_frame(rng):
+    names = rng.sample(["age", "year", "draw_id", "sex"], rng.choice([2, 2, 3]))
+    pools = dict(HANDLE_LEVELS, sex=["Female", "Male"])
+    seen, tuples = set(), []
+    for _ in range(24):
+        t = tuple(rng.choice(pools[n]) for n in names)
+        if t not in seen:
+            seen.add(t)
+            tuples.append(list(t))
+        if len(tuples) == rng.randint(3, 6):
+            break
+    n = len(tuples)
+    if rng.random() < 0.12:
+        return {"t": "frame", "names": names, "index": tuples, "cols": {}}              # empty indexed table
+    cols = {c: [rng.choice([0.0, 0.5, 2.0, -1.25]) for _ in range(n)] for c in rng.sample(["draw_0", "draw_1", "draw_2", "value"], rng.randint(1, 4))}
+    if rng.random() < 0.4:
+        cols["label"] = [rng.choice(["a", "bb"]) for _ in range(n)]
+    return {"t": "frame", "names": names, "index": tuples, "cols": cols}
+
+
+def gen_filter(rng):
+    """what an Artifact is opened with: row terms + at most one draw term"""
+    draw = None
+    if rng.random() < 0.45:
+        form = rng.choice(["==", "=", "in"])
+        draw = {"form": form, "draws": rng.sample([0, 1, 2, 7], rng.randint(1, 2) if form == "in" else 1)}
+    terms = [gen_hterm(rng) for _ in range(rng.choice([0, 1, 1, 2]) if draw else rng.choice([1, 1, 2, 3]))]
+    return {"terms": terms, "draw": draw, "pos": rng.randint(0, len(terms))}
+
+
+def hterm_str(t):
+    if t[0] == "atom":
+        v = f"'{t[3]}'" if isinstance(t[3], str) else str(t[3])
+        return f"{t[1]} {t[2]} {v}"
+    return f"({hterm_str(t[1])}) {'&' if t[0] == 'and' else '|'} ({hterm_str(t[2])})"
+
+
+def filter_strings(spec):
+    if spec is None:
+        return None
+    strs = [hterm_str(t) for t in spec["terms"]]
+    d = spec.get("draw")
+    if d:
+        strs.insert(min(spec.get("pos", 0), len(strs)),
+                    f"draw in [{','.join(map(str, d['draws']))}]" if d["form"] == "in" else f"draw {d['form']} {d['draws'][0]}")
+    return strs or None
+
+
+def hterm_cols(t):
+    return [t[1]] if t[0] == "atom" else hterm_cols(t[1]) + hterm_cols(t[2])
+
+
+def hterm_eval(t, row):
+    if t[0] == "atom":
+        return {"<": lambda a, b: a < b, "<=": lambda a, b: a <= b, "==": lambda a, b: a == b, ">=": lambda a, b: a >= b,
+                ">": lambda a, b: a > b, "!=": lambda a, b: a != b}[t[2]](row[t[1]], t[3])
+    if t[0] == "and":
+        return hterm_eval(t[1], row) and hterm_eval(t[2], row)
+    return hterm_eval(t[1], row) or hterm_eval(t[2], row)
+
+
+def apply_filter(value, spec):
+    """What a handle opened with `spec` must return for the stored `value` - computed by the harness itself:
+    rows: every term ALL of whose columns can be queried (the index levels of a multi-index table; every column of an
+    empty indexed table) must hold; columns (non-empty frames, one draw term): draw_n for the requested n, and `value`."""
+    import pandas as pd
+    if spec is None or not isinstance(value, (pd.DataFrame, pd.Series)):
+        return value
+    levels = [str(n) for n in value.index.names]
+    is_empty_table = isinstance(value, pd.DataFrame) and value.empty
+    queryable = levels if (len(levels) > 1 or is_empty_table) else []
+    valid = [t for t in spec["terms"] if set(hterm_cols(t)) <= set(queryable)]
+    tuples = [t if isinstance(t, tuple) else (t,) for t in value.index.tolist()]
+    keep = [all(hterm_eval(t, dict(zip(levels, tup))) for t in valid) for tup in tuples]
+    out = value[keep] if not all(keep) else value
+    d = spec.get("draw")
+    if d and isinstance(out, pd.DataFrame) and not is_empty_table:
+        request = [f"draw_{n}" for n in d["draws"]] + ["value"]
+        out = out[[c for c in out.columns if c in request]]
+    return out
+
+
+def canon_h(v, spec):
+    """canonical text of what a HANDLE returned: under a draw filter the order of the selected columns is not part of it"""
+    import pandas as pd
+    if spec is not None and spec.get("draw") and isinstance(v, pd.DataFrame):
+        v = v[sorted(v.columns)]
+    return canon(v)
+
+
 def gen_ops(rng, tier_max):
+    case = gen_ops0(rng, tier_max)
+    if rng.random() < 0.5:
+        # handles opened WITH filter terms (the observer always reads unfiltered): 1-2 filters, switched at re-opening
+        filters = [gen_filter(rng) for _ in range(rng.randint(1, 2))]
+        has_draw = any(f["draw"] for f in filters)
+        ops = case["ops"]
+        for o in ops:
+            if "data" in o and kind_of(o["data"]) in "FJ" and rng.random() < 0.45:
+                o["data"] = gen_filterable_frame(rng)  # tables the filters can bite on
+            if "data" in o and o["data"]["t"] == "series" and has_draw:
+                o["data"]["name"] = "value"            # an unnamed Series cannot be read back through a draw filter (see report)
+        # more re-openings, so that handles alternate
+        extra = []
+        for o in ops:
+            extra.append(o)
+            if o["op"] in ("write", "replace") and rng.random() < 0.25:
+                extra.append({"op": "reopen"})
+        for o in extra:
+            if o["op"] == "reopen":
+                o["f"] = rng.choice([0] + [i + 1 for i in range(len(filters))] * 2)
+        case["ops"] = [{"op": "reopen", "f": rng.randint(1, len(filters))}] + extra
+        if rng.random() < 0.7:
+            # a filter made to BITE on a table of this very case, and the operations through which a filtered view could
+            # leak into the file: repeated loads (cache), clear_cache, replace with good data, replace refused inside put
+            fr = gen_filterable_frame(rng)
+            while not fr["cols"]:
+                fr = gen_filterable_frame(rng)
+            ints = [n for n in fr["names"] if n != "sex"]
+            lvl = rng.choice(ints)
+            vals = sorted({t[fr["names"].index(lvl)] for t in fr["index"]})
+            draws = [int(c.split("_")[1]) for c in fr["cols"] if c.startswith("draw_")]
+            bite = {"terms": [["atom", lvl, rng.choice([">", "==", "!=", "<="]), rng.choice(vals)]] if rng.random() < 0.75 else [],
+                    "draw": None, "pos": 0}
+            if (not bite["terms"] or rng.random() < 0.4) and len(fr["cols"]) > 1:
+                bite["draw"] = {"form": "in", "draws": rng.sample(draws, 1) if draws else [7]}
+            if not bite["terms"] and not bite["draw"]:
+                bite["terms"] = [["atom", lvl, ">", vals[0]]]
+            filters.append(bite)
+            fb = len(filters)
+            k = rng.choice(["pop.flu.incidence", "cause.theta", "risk.tb.structure", "metadata.versions"])
+            script = [{"op": "reopen", "f": rng.choice([0, fb])}, {"op": "write", "key": k, "data": fr}, {"op": "reopen", "f": fb},
+                      {"op": "load", "key": k}, {"op": "load", "key": k}]
+            for _ in range(rng.randint(1, 3)):
+                r = rng.random()
+                if r < 0.35:
+                    script.append({"op": "replace", "key": k, "data": {"t": "badframe"}})
+                elif r < 0.6:
+                    script.append({"op": "clear"})
+                elif r < 0.8:
+                    script.append({"op": "replace", "key": k, "data": gen_filterable_frame(rng)})
+                else:
+                    script.append({"op": "replace", "key": k, "data": {"t": rng.choice(["none", "unser"]), "k": 0}})
+                script.append({"op": "load", "key": k})
+            script += [{"op": "reopen", "f": rng.choice([0, 0, 1])}, {"op": "load", "key": k}]
+            keep = max(0, tier_max - len(script))
+            case["ops"] = script + case["ops"][:keep] if rng.random() < 0.5 else case["ops"][:keep] + script
+        case["filters"] = filters
+    return case
+
+
+def gen_ops0(rng, tier_max):
     pool = gen_pool(rng)
     n = rng.randint(3, tier_max)
     ops, present = [], set()       # `present` = a guess used only to bias the generator (writes may be rejected)
@@ -403,6 +576,16 @@ REPAIRED_CASES = [
     {"ops": [{"op": "write", "key": "pop.theta", "data": {"t": "json", "v": 1}}, {"op": "write", "key": "pop.age_bins", "data": {"t": "json", "v": [0, 5]}},
              {"op": "write", "key": "pop.structure", "data": FRAME12}, {"op": "remove", "key": "pop.structure"},
              {"op": "load", "key": "pop.theta"}, {"op": "load", "key": "pop.age_bins"}], "obs_seed": 11},
+    # filtered handles never reach the file (second seeded change: roll-back copy read through the handle's filter)
+    {"filters": [{"terms": [["atom", "age", ">", 1]], "draw": None, "pos": 0}, {"terms": [], "draw": {"form": "==", "draws": [1]}, "pos": 0}],
+     "ops": [{"op": "write", "key": "pop.structure", "data": {"t": "frame", "names": ["age", "year"],
+                                                            "index": [[0, 2000], [1, 2000], [5, 2000], [10, 2019]],
+                                                            "cols": {"draw_0": [0.0, 0.5, 2.0, 0.5], "draw_1": [2.0, 2.0, 0.5, 0.0], "value": [0.0, 0.0, 0.5, 2.0]}}},
+             {"op": "reopen", "f": 1}, {"op": "load", "key": "pop.structure"}, {"op": "load", "key": "pop.structure"},
+             {"op": "replace", "key": "pop.structure", "data": {"t": "badframe"}}, {"op": "load", "key": "pop.structure"},
+             {"op": "clear"}, {"op": "load", "key": "pop.structure"}, {"op": "reopen", "f": 2}, {"op": "load", "key": "pop.structure"},
+             {"op": "replace", "key": "pop.structure", "data": {"t": "badframe"}}, {"op": "clear"},
+             {"op": "reopen", "f": 0}, {"op": "load", "key": "pop.structure"}], "obs_seed": 12},
     # d4f70230: an empty group /t/n left behind must not block the JSON write of t.n
     {"ops": [{"op": "write", "key": "t.n.m", "data": {"t": "json", "v": [1]}}, {"op": "remove", "key": "t.n.m"},
              {"op": "write", "key": "t.n", "data": {"t": "json", "v": [2]}}, {"op": "load", "key": "t.n"}], "obs_seed": 6},
@@ -502,8 +685,12 @@ def run_ops(case):
         nonlocal ok, msg
         if ok:
             ok, msg = False, m
+    filters = [None] + list(case.get("filters") or [])
+    cur_f = 0               # index of the filter the handle `a` was opened with (0 = none)
+    frames = {}             # content id -> frame ever given to write / replace (for the filters' effect table)
     a = Artifact(path)
-    ref = {}                # the direct oracle's plain map: key -> canonical text expected from load
+    ref = {}                # the direct oracle's plain map: key -> canonical text expected from an UNFILTERED load
+    ref_val = {}            # ... and the value itself (what a filtered handle must return is computed from it)
     used = []               # every key string used so far (for full observations)
     obs_coq, trace, tags = [], [], set()
     n_ops = len(case["ops"])
@@ -522,6 +709,8 @@ def run_ops(case):
                 dk = kind_of(op["data"])
                 if dk in "FJ":
                     cid = content(canon(value))
+                    if dk == "F":
+                        frames[cid] = value
                     if dk == "J":
                         rtj[cid] = content(canon(json.loads(json.dumps(value))))
                     d_coq = f"(DFrame {cz(cid)})" if dk == "F" else f"(DJson {cz(cid)})"
@@ -539,7 +728,8 @@ def run_ops(case):
                 elif kind == "clear":
                     a.clear_cache()
                 elif kind == "reopen":
-                    a = Artifact(path)
+                    cur_f = op.get("f", 0) if op.get("f", 0) < len(filters) else 0
+                    a = Artifact(path, filter_terms=filter_strings(filters[cur_f]))
             except Exception as e:  # noqa: BLE001 - the outcome class is the observation
                 err = e
             rejected = err is not None
@@ -552,24 +742,27 @@ def run_ops(case):
                 fail(f"step {step_no}: {kind}({k!r}) was refused ({type(err).__name__}: {str(err)[:120]}) although none of the "
                      f"listed rejection reasons applies (keys present: {sorted(ref)})")
             if not rejected:
-                if kind == "write":
-                    ref[k] = canon(json.loads(json.dumps(value))) if kind_of(op["data"]) == "J" else canon(value)
-                    accepted_writes += 1
-                elif kind == "replace":
-                    ref[k] = canon(json.loads(json.dumps(value))) if kind_of(op["data"]) == "J" else canon(value)
+                if kind in ("write", "replace"):
+                    ref_val[k] = json.loads(json.dumps(value)) if kind_of(op["data"]) == "J" else value
+                    ref[k] = canon(ref_val[k])
+                    accepted_writes += kind == "write"
                 elif kind == "remove":
                     ref.pop(k, None)
+                    ref_val.pop(k, None)
             loaded_id = None
             if kind == "load" and not rejected and k != RESERVED:
-                loaded_id = content(canon(loaded))
+                loaded_id = content(canon_h(loaded, filters[cur_f]))
                 if k not in ref:
                     fail(f"step {step_no}: load({k!r}) returned data for a key nothing was written under")
-                elif canon(loaded) != ref[k]:
-                    fail(f"step {step_no}: load({k!r}) returned {canon(loaded)[:200]} but {ref[k][:200]} was last written")
+                else:
+                    want_l = canon_h(apply_filter(ref_val[k], filters[cur_f]), filters[cur_f])
+                    if canon_h(loaded, filters[cur_f]) != want_l:
+                        fail(f"step {step_no}: load({k!r}) through a handle with filter terms {filter_strings(filters[cur_f])} returned "
+                             f"{canon(loaded)[:200]}; last written {ref[k][:200]}; expected through the filter {want_l[:200]}")
             # ---- observations ----
             keys1 = [str(x) for x in a.keys]
             filekeys = [str(x) for x in hdf.get_keys(path)]
-            b = Artifact(path)
+            b = Artifact(path)                     # the observer reads UNFILTERED
             keys2 = [str(x) for x in b.keys]
             full = rejected or kind in ("remove", "replace") or step_no == n_ops - 1 or rng.random() < 0.25
             if full:
@@ -616,7 +809,7 @@ def run_ops(case):
             elif kind == "replace":
                 o = f"Replace {ckey(parts_of, k)} {d_coq}"
             else:
-                o = "ClearCache" if kind == "clear" else "Reopen"
+                o = "ClearCache" if kind == "clear" else f"(Reopen {cz(cur_f)})"
             obs_coq.append("{| o_op := %s; o_rej := %s; o_loaded := %s; o_keys := %s; o_file := %s; o_keys2 := %s; o_loads2 := %s |}" % (
                 o, cbool(rejected), copt(loaded_id, cz), clist(ckey(parts_of, x) for x in keys1),
                 clist(ckey(parts_of, x) for x in filekeys), clist(ckey(parts_of, x) for x in keys2),
@@ -627,8 +820,21 @@ def run_ops(case):
             os.remove(path)
         except OSError:
             pass
-    coq = "(" + cpair(clist(cpair(cz(i), cz(j)) for i, j in sorted(rtj.items()) if i != j), "[]",
+    # the filters' effect on every table content that was ever stored, computed by the harness (apply_filter)
+    vt = []
+    for fi in range(1, len(filters)):
+        for cid, frame in sorted(frames.items()):
+            try:
+                j = content(canon_h(apply_filter(frame, filters[fi]), filters[fi]))
+            except Exception:       # a frame pandas cannot even slice (object cells): never stored
+                continue
+            if j != cid:
+                vt.append(cpair(cz(fi), cz(cid), cz(j)))
+    coq = "(" + cpair(clist(cpair(cz(i), cz(j)) for i, j in sorted(rtj.items()) if i != j), "[]", clist(vt),
                       clist("\n    " + x for x in obs_coq)) + " : ops_case)"
+    tags.add("filtered_handles" if len(filters) > 1 else "unfiltered_handle")
+    if vt:
+        tags.add("filter_bites")
     return Result(ok=ok, msg=msg, coq=coq, key=json.dumps(case, sort_keys=True) if accepted_writes else None,
                   obs={"trace": trace[-12:]}, tags=tuple(sorted(tags)) + (f"len{min(n_ops, 25) // 5 * 5}",))
 
@@ -807,7 +1013,7 @@ def corpus_filt():
 def streams(tier):
     return [
         Stream(name="ops", imports="From Viv Require Import Common Artifact.", check="check_ops",
-               gen=gen_ops_quick if tier == "quick" else gen_ops_thorough, run=run_ops, n_quick=90, n_thorough=260,
+               gen=gen_ops_quick if tier == "quick" else gen_ops_thorough, run=run_ops, n_quick=70, n_thorough=260,
                corpus=corpus_ops,
                doc="operation sequences on real HDF files, observed after every operation"),
         Stream(name="filt", imports="From Viv Require Import Common Artifact.", check="check_filt", gen=gen_filt,
